@@ -19,34 +19,81 @@ class FlagModule:
         self.cfgs = {p: mirq.CFG(b) for p, b in self.fns.items()}
         self.created = {p: {c: blk for c, blk in self._closures_created(cfg).items() if c in self.fns}
                         for p, cfg in self.cfgs.items()}
+        self.ctx = {p: self._context(cfg) for p, cfg in self.cfgs.items()}
         self.summary = {p: set() for p in self.fns}
         self._summaries()
 
-    # ---- field writes
-    def flag_write(self, stmt):
-        fp = mirq.field_proj(stmt["d"])
+    def _is_flag_place(self, place):
+        fp = mirq.field_proj(place)
         if fp and fp[-1][0] in self.flags and norm_path(fp[-1][1]).endswith(self.struct_suffix):
-            r = stmt["r"]
-            if r.get("k") == "Use":
-                c = mirq.op_const(r["a"])
-                if c in (0, 1):
-                    return fp[-1][0], c
-            return fp[-1][0], None
+            return fp[-1][0]
         return None
 
-    def stmt_transfer(self, stmt, st):
-        w = self.flag_write(stmt)
-        if not w:
-            return st
-        idx = self.flags.index(w[0])
+    def _context(self, cfg):
+        """Per function: which temporaries hold Option::None / Option::Some (flags of Option type are 0 / 1), and which
+        temporaries are `&mut analyzer.flag` references."""
+        optval, refs = {}, {}
+        for blk in cfg.blocks:
+            for st in blk["s"]:
+                d, r = st["d"], st["r"]
+                if not isinstance(d, int):
+                    continue
+                if r.get("k") == "Agg" and str(r.get("adt", "")).endswith("option::Option"):
+                    optval.setdefault(d, set()).add(0 if r.get("variant") == "None" else 1)
+                elif r.get("k") == "Ref" and self._is_flag_place(r.get("p")):
+                    refs[d] = self._is_flag_place(r.get("p"))
+                else:
+                    optval.setdefault(d, set()).add(None)
+            t = blk["t"]
+            if t.get("k") == "Call" and isinstance(t.get("dest"), int):
+                optval.setdefault(t["dest"], set()).add(None)
+        return {"optval": optval, "refs": refs}
+
+    # ---- field writes
+    def flag_write(self, stmt, ctx=None):
+        """(flag, set of possible values) for a statement writing a flag field, else None."""
+        flag = self._is_flag_place(stmt["d"]) if isinstance(stmt["d"], dict) else None
+        if not flag:
+            return None
+        r = stmt["r"]
+        if r.get("k") == "Use":
+            c = mirq.op_const(r["a"])
+            if c in (0, 1):
+                return flag, {c}
+            l = mirq.op_local(r["a"])
+            if l is not None and ctx is not None:
+                vals = ctx["optval"].get(l, set())
+                if vals and None not in vals:
+                    return flag, set(vals)
+        if r.get("k") == "Agg" and str(r.get("adt", "")).endswith("option::Option"):
+            return flag, {0 if r.get("variant") == "None" else 1}
+        return flag, {0, 1}
+
+    def write(self, st, flag, vals):
+        idx = self.flags.index(flag)
         out = set()
         for s in st:
-            vals = (0, 1) if w[1] is None else (w[1],)
             for v in vals:
                 t = list(s)
                 t[idx] = v
                 out.add(tuple(t))
         return out
+
+    def make_stmt_transfer(self, p):
+        ctx = self.ctx[p]
+
+        def stmt_transfer(stmt, st):
+            w = self.flag_write(stmt, ctx)
+            if not w:
+                return st
+            return self.write(st, w[0], w[1])
+        return stmt_transfer
+
+    def stmt_transfer(self, stmt, st):
+        w = self.flag_write(stmt)
+        if not w:
+            return st
+        return self.write(st, w[0], w[1])
 
     def apply_summary(self, summ, st):
         out = set()
@@ -89,10 +136,22 @@ class FlagModule:
         cfg = self.cfgs[p]
         created = self.created[p]
 
+        refs = self.ctx[p]["refs"]
+
         def transfer(t, st):
             c = mirq.call_target(t)
             if c in self.fns:
                 return self.apply_summary(self.summary.get(c, set()), st)
+            # `&mut analyzer.flag` handed to a std function: Option::take leaves None, anything else may write anything
+            for a in t.get("args", []):
+                l = mirq.op_local(a)
+                if l in refs:
+                    if c is not None and c.endswith("option::Option::take"):
+                        st = self.write(st, refs[l], {0})
+                    elif c is not None and c.endswith(("option::Option::is_some", "option::Option::is_none", "option::Option::as_ref")):
+                        pass
+                    else:
+                        st = self.write(st, refs[l], {0, 1})
             if c is not None and not c.startswith(("alpha::", "<alpha::", "delta::", "<delta::")) and created:
                 live = self.live_closures(cfg, created, t)
                 if not live or not self.takes_closure(t, cfg):
@@ -110,12 +169,13 @@ class FlagModule:
             return st
         return transfer
 
-    def exit_states(self, cfg, inst):
+    def exit_states(self, cfg, inst, p=None):
         out = set()
+        stf = self.make_stmt_transfer(p) if p is not None else self.stmt_transfer
         for b in cfg.exits():
             st = set(inst.get(b, set()))
             for stmt in cfg.blocks[b]["s"]:
-                st = self.stmt_transfer(stmt, st)
+                st = stf(stmt, st)
             out |= st
         return out
 
@@ -124,8 +184,8 @@ class FlagModule:
         for _ in range(60):
             changed = False
             for p, cfg in self.cfgs.items():
-                inst = typestate.run(cfg, sym, self.make_transfer(p), None, None, stmt_transfer=self.stmt_transfer)
-                ex = self.exit_states(cfg, inst)
+                inst = typestate.run(cfg, sym, self.make_transfer(p), None, None, stmt_transfer=self.make_stmt_transfer(p))
+                ex = self.exit_states(cfg, inst, p)
                 if ex != self.summary[p]:
                     self.summary[p] = ex
                     changed = True
@@ -147,7 +207,7 @@ class FlagModule:
 
                 def observe(u, t, st, recs=recs):
                     recs.append((u, t, set(st)))
-                typestate.run(cfg, entries[p], self.make_transfer(p), None, observe, stmt_transfer=self.stmt_transfer)
+                typestate.run(cfg, entries[p], self.make_transfer(p), None, observe, stmt_transfer=self.make_stmt_transfer(p))
                 records[p] = recs
                 for u, t, st in recs:
                     c = mirq.call_target(t)
